@@ -83,6 +83,7 @@ struct C13 : Prop {
 					J e1 = J::obj(); e1.set("at_us", t0); e1.set("topo", "lost"); e1.set("node", pc::jaddr(b->addr)); sev.push(e1);
 					J e2 = J::obj(); e2.set("at_us", t0 + (int) r.range(500, 30000)); e2.set("topo", "new"); e2.set("node", pc::jaddr(b->addr)); sev.push(e2);
 					se.set("start_bus", sev);
+					if (r.chance(700)) { J bus = plan["bus"]; bus.set("restart_count_real", true); plan.set("bus", bus); }
 				}
 			}
 			else if (r.chance(500)) {
